@@ -27,9 +27,9 @@ func VerifSetReadTimeout(d time.Duration) time.Duration {
 	return old
 }
 
-// VerifHandleError exposes handleError, the translation of a network-layer
+// VerifC09HandleError exposes handleError, the translation of a network-layer
 // error into the package's error values, so that it can be compared case by
 // case with its model.
-func VerifHandleError(err error) error {
+func VerifC09HandleError(err error) error {
 	return handleError(err)
 }
